@@ -234,7 +234,9 @@ impl<'a> Parser<'a> {
             self.advance();
 
             if self.current_token == Token::If {
-                Some(vec![self.parse_statement()?])
+                // Parse just the nested if-expression: parsing a whole statement here would swallow the
+                // separator (and any operator) that follows the chain as a whole
+                Some(vec![Stmt::Expr(self.parse_if_expr()?)])
             } else {
                 Some(self.parse_block_statement()?)
             }
